@@ -30,7 +30,7 @@ add("C17", "model-based (stateful) property testing: generated operation histori
 
 add("C10", "property-based differential testing against math/big through the real compiler and executables (rapid)",
     "Generated batches of integer literals (12 types x boundary-heavy values up to 300 bits x decimal/hex/octal/binary spellings with separators, case variants and the three negation forms x 5 positions) are type-checked and the set of rejected lines must equal the out-of-range set exactly; the accepted lines are compiled natively, run, and must print their exact value. Exploration.",
-    "Trusts math/big and io::Println's decimal printing of the value. Decimal literals with leading zeros are not generated (base undocumented). One recorded known finding (i256 minimum with a separated minus sign) is excluded by construction.",
+    "Trusts math/big and io::Println's decimal printing of the value. Decimal literals with leading zeros are not generated (base undocumented).",
     "DESIGN.md §4 C10")
 add("C15", "exhaustive enumeration of small import graphs + rapid graph/schedule generation; oracle = reachability/cycle analysis and computed value",
     "Every digraph on <=3 modules and generated graphs up to 40 modules (dense random, layered DAGs with back edges, wide fan-outs, chains with chords; plain/aliased/doubly-aliased imports) are compiled under generated schedules (GOMAXPROCS x hook delays at module granularity). Cyclic => circular-import error, no executable, no hang; acyclic => compiles, every reachable module processed once per phase, executable prints the value computed from the graph. Exploration; exhaustive for n<=3.",
@@ -39,7 +39,7 @@ add("C15", "exhaustive enumeration of small import graphs + rapid graph/schedule
 
 add("C13", "generated-input robustness testing (rapid: bytes, token soup, mutated corpus programs, broken multi-file projects) with a faithful-failure oracle; native go fuzz in thorough",
     "Arbitrary bytes, token soup, every .fer file of the repository damaged by syntactic and class-preserving mutations and re-laid-out with tabs/line breaks, and small projects with missing/self/cyclic/malformed imports are compiled for -t, wasm and native. Oracle: no internal crash or hang, exit 0 exactly when no error diagnostic was printed, a failure carries >=1 error located inside an input file, no artifact after failure, artifact after success. Exploration.",
-    "Compilations run through a persistent process calling compiler.Compile (process creation is the bottleneck here); every violation is re-confirmed with the real CLI. One recorded finding (closures on wasm fail without a located diagnostic) is suppressed by its key.",
+    "Compilations run through a persistent process calling compiler.Compile (process creation is the bottleneck here); every violation is re-confirmed with the real CLI.",
     "DESIGN.md §4 C13")
 add("C18", "white-box invariant checking of the compiler's DataLayout over generated type expressions (rapid), both pointer sizes; black-box store/read-back programs via the C01/C02 machinery",
     "Generated type expressions (mixed-width structs, nesting, fixed arrays, optionals, results, references) are laid out by mir.DataLayout for pointer sizes 8 and 4 and must satisfy: aligned, ordered, pairwise disjoint fields inside the object; size multiple of alignment; optional flag byte and result discriminant inside the object and outside the payloads. Exploration of the layout function; the run-time half is covered by generated programs.",
@@ -53,7 +53,7 @@ add("C14", "metamorphic repetition testing: generated multi-module projects comp
 
 add("C01", "differential testing of generated programs against a reference interpreter (rapid type-directed program generator, math/big interpreter)",
     "Well-typed core-language programs are generated type-directed (all integer widths, bool, str, nested structs and methods, enums/match, fixed and dynamic arrays, references, closures, results/catch, recursion, loops), compiled by the real compiler to a native executable and run; stdout lines and termination kind must equal those computed by an independent reference interpreter written from the property statements. A rejection of such a program is a violation too. Exploration; shrunk counter-examples are saved with source, expected and observed output.",
-    "The reference interpreter (harness/fer) is the trusted definition of the core semantics; constructs the documentation leaves open are never generated (division by zero, MIN/-1, out-of-range casts, aliasing of dynamic arrays). Recorded known findings (QBE rega assertion, QBE copy-pass hang on self-assignment in loops, closures created in nested blocks) are excluded by construction or suppressed by their specific key.",
+    "The reference interpreter (harness/fer) is the trusted definition of the core semantics; constructs the documentation leaves open are never generated (division by zero, MIN/-1, out-of-range casts, aliasing of dynamic arrays). One recorded known finding (a variable captured by a closure that is created in a nested block) is excluded by construction.",
     "DESIGN.md §4 C01")
 
 add("C02", "differential testing of the two back ends on generated programs (rapid program generator; node + shipped runtime.js in worker threads)",
@@ -67,7 +67,7 @@ add("C04", "differential testing against a reference interpreter on generated fi
     "DESIGN.md §4 C04")
 add("C08", "model-based testing of generated indexing histories over dynamic arrays and strings against an abstract list (rapid + reference interpreter)",
     "Generated histories (literal construction, appends - also from inside index expressions -, element assignments, reads/writes with constant and opaque indices in [-len-2, len+1], strings) are compiled and run; valid indices for the current length must be accepted and yield the stored element, invalid ones must end in an index-out-of-bounds panic after all earlier lines were delivered; a compile-time rejection is accepted only if some execution indexes out of range. Exploration.",
-    "Trusts the reference interpreter's list model. One recorded finding (index variable reassigned in an untaken branch is mis-rejected) is excluded by construction.",
+    "Trusts the reference interpreter's list model.",
     "DESIGN.md §4 C08")
 
 add("C05", "property-based testing with a dynamic-witness oracle: generated control-flow shapes executed by a reference interpreter (rapid)",
@@ -141,6 +141,8 @@ def main():
         },
         "engines": [
             {"name": "rapid-harness", "path": "harness/", "serves_properties": sorted(CHECKS), "kind_free_text": "Go module (pgregory.net/rapid v1.3.0) sharded over processes by verif.sh; generators + explicit oracles per property; saved cases re-decided without rapid"},
+            {"name": "libfuzzer-targets", "path": "cdrv/bigint_fuzz.c cdrv/maparr_fuzz.c fuzz/", "serves_properties": ["C16", "C17"], "kind_free_text": "thorough tier only: clang libFuzzer + ASan/UBSan targets with the oracle (reference implementation / model) inside the target, run by fuzz/run_C16.sh and fuzz/run_C17.sh under a wall-clock budget"},
+            {"name": "go-native-fuzz", "path": "harness/props/fuzz_test.go harness/props/inproc_test.go fuzz/run_gofuzz.sh", "serves_properties": ["C13", "C18", "C20"], "kind_free_text": "thorough tier only: go test -fuzz over rapid.MakeFuzz(campaign property); in-process compilation gives coverage feedback from the compiler"},
         ],
         "checks": checks,
         "not_applicable": na,
